@@ -14,7 +14,8 @@ from props.interp_common import TEMPLATES, run_scenario, check_trace
 
 TICKS = {"seq": 12, "block": 13, "nested": 18, "endblocks": 12, "watch": 14, "watch_block": 18, "alarm": 16,
          "alarm_block": 19, "macro": 24, "wait_cmd": 20, "watch_in_alarm": 16, "trailing": 13,
-         "block_in_watch": 20, "block_in_alarm": 20, "empty_openers": 16, "two_watch_blocks": 28, "uod_in_alarm": 20, "uod_in_macro": 20}
+         "block_in_watch": 20, "block_in_alarm": 20, "empty_openers": 16, "two_watch_blocks": 28, "uod_in_alarm": 20, "uod_in_macro": 20,
+         "block_in_macro": 34, "block_between_in_alarm": 30}
 
 
 def harness(sym):
